@@ -27,6 +27,15 @@ and the script monad of coq/Model/C18Model.v:
     family are identities into the tree held in the threaded variables st_tr / st_rates / st_next
   * keyword options are bound from the call described in PLAN or from the DEFAULT written in the
     source (`kwargs.pop(name, default)`, parameter defaults)
+  * parent pointers of identity nodes: nd.parent_node -> b_parent tree nd (option), `is not None`
+    establishes the fact that lets `nd = nd.parent_node` / len(nd.parent_node._child_nodes) unwrap it;
+    tree.prune_subtree(nd, suppress_unifurcations=False) -> b_prune_subtree; a set of nodes is a list
+  * a function can be cut into parts at statements named in PLAN (start / stop predicates on the
+    AST); each part is a definition over the variables live at the cut
+  * contained_coalescent_tree (class FnS): the containing tree is a value, a dict keyed by nodes an
+    association list keyed by node identity (D[k] -> py_dict_get, D[k] = v -> d_set, k in D -> d_has,
+    D[k].append/extend -> get + set); the reverse-map tests / sorted(...) / population-size `if` are
+    recognised as exact shapes and become the fields of the model's species node
 
 It is a compiler for a whitelisted subset: operators, call names, argument order, comparison
 directions, loop sources and bounds, which variable or attribute is updated all come from the AST.
@@ -70,8 +79,14 @@ def coq_ty(t):
         return "(option Q)"
     if t == "N":
         return "nat"
-    if t == "ON":
+    if t in ("ON", "ObN", "OsN"):
         return "(option nat)"
+    if t in ("stree", "snode"):
+        return "stree"
+    if t == "sedge":
+        return "(stree * option nat)"
+    if isinstance(t, tuple) and t[0] == "dict":
+        return "(list (nat * %s))" % coq_ty(t[2])
     if t == "Z":
         return "Z"
     if t == "B":
@@ -123,6 +138,13 @@ class Var:
 
 def vname(n):
     return "v_" + n
+
+
+def recarry(n, v, bump):
+    """the variable n as carried through a loop: same type and flags, bound by the loop's pattern"""
+    w = v.copy()
+    w.coq, w.const, w.version = vname(n), NOCONST, v.version + bump
+    return w
 
 
 def tuple_pat(names):
@@ -424,7 +446,7 @@ class Fn:
             pre, t, ty, c = self.ex(l, env)
             if c is not NOCONST:
                 v = (c is None)
-            elif ty in ("OQ", "ON"):
+            elif ty in ("OQ", "ON", "ObN", "OsN"):
                 v = NOCONST
                 res = "(py_is_none %s)" % t
             elif ty == "none":
@@ -567,8 +589,20 @@ class Fn:
         return out
 
     def call_known(self, e, name, env):
-        k = KNOWN[name]
-        args = self.bind_call(e, k["fn"])
+        # the specialisation whose fixed options are the ones of this call
+        args = self.bind_call(e, KNOWN[name][0]["fn"])
+        k = None
+        for cand in KNOWN[name]:
+            ok = True
+            for p, val in cand["consts"].items():
+                _pp, _t, _ty, c = self.ex(args[p], env)
+                if c is NOCONST or c != val or type(c) != type(val):
+                    ok = False
+            if ok:
+                k = cand
+                break
+        if k is None:
+            k = KNOWN[name][0]       # reported below
         pre, texts = [], []
         for p, want in k["params"]:
             pp, t, ty, _c = self.ex(args[p], env)
@@ -611,6 +645,9 @@ class Fn:
             if not is_list(ty):
                 self.bad(e, "list() of %r" % (ty,))
             return pre, t, ty, NOCONST
+        if qual == "float" and len(e.args) == 1 and not e.keywords and isinstance(e.args[0], ast.Constant) \
+                and isinstance(e.args[0].value, int) and not isinstance(e.args[0].value, bool):
+            return [], qlit(e.args[0].value), "Q", NOCONST
         if qual == "combinatorics.choose" and len(e.args) == 2 and not e.keywords:
             pa, a, ta, _ = self.ex(e.args[0], env)
             _pb, _b, _tb, cb = self.ex(e.args[1], env)
@@ -743,6 +780,11 @@ class Fn:
                 for b in [s.body] + [h.body for h in s.handlers]:
                     for n in self.assigned(b, env):
                         add(n)
+            elif isinstance(s, ast.Delete):
+                for t in s.targets:
+                    if not (isinstance(t, ast.Subscript) and isinstance(t.value, ast.Name)):
+                        self.bad(s, "del form")
+                    add(t.value.id)
             elif isinstance(s, (ast.Return, ast.Break, ast.Continue, ast.Pass, ast.Raise, ast.Assert)):
                 pass
             else:
@@ -809,7 +851,10 @@ class Fn:
     def is_monadic(self, stmts, env):
         for s in stmts:
             for n in ast.walk(s):
-                if isinstance(n, (ast.Raise, ast.While)):
+                if isinstance(n, (ast.Raise, ast.While, ast.Delete)):
+                    return True
+                if isinstance(n, ast.Subscript) and isinstance(n.ctx, ast.Store) and isinstance(n.value, ast.Name) \
+                        and n.value.id in env and is_list(env[n.value.id].ty):
                     return True
                 if isinstance(n, ast.Call):
                     f = n.func
@@ -1076,7 +1121,36 @@ class Fn:
         self.bad(s, "assignment target")
 
     def subscript_store(self, s, t, rest, env, k, mode):
+        # L[i] = v   (IndexError when i is out of range)
+        if isinstance(t.value, ast.Name) and t.value.id in env and is_list(env[t.value.id].ty):
+            L = t.value.id
+            if mode != "M":
+                self.bad(s, "list item store (can raise) inside a pure block")
+            pi, i, ity, _ = self.ex(t.slice, env)
+            pv, v, vty, _ = self.ex(s.value, env)
+            if pi or pv or ity != "N":
+                self.bad(s, "list item store form")
+            v = self.coerce(v, vty, env[L].ty[1], s)
+            old = env[L].coq
+            env2 = self.bind(env, L, env[L].ty)
+            return "(let! %s := py_list_set %s %s %s in\n  %s)" % (env2[L].coq, old, i, v, self.block(rest, env2, k, mode))
         self.bad(s, "subscript store")
+
+    def st_Delete(self, s, rest, env, k, mode):
+        # del L[i]   (IndexError when i is out of range)
+        t = s.targets[0] if len(s.targets) == 1 else None
+        if isinstance(t, ast.Subscript) and isinstance(t.value, ast.Name) and t.value.id in env \
+                and is_list(env[t.value.id].ty):
+            L = t.value.id
+            if mode != "M":
+                self.bad(s, "del (can raise) inside a pure block")
+            pi, i, ity, _ = self.ex(t.slice, env)
+            if pi or ity != "N":
+                self.bad(s, "del form")
+            old = env[L].coq
+            env2 = self.bind(env, L, env[L].ty)
+            return "(let! %s := py_list_del %s %s in\n  %s)" % (env2[L].coq, old, i, self.block(rest, env2, k, mode))
+        self.bad(s, "del form")
 
     def st_AugAssign(self, s, rest, env, k, mode):
         t = s.target
@@ -1236,7 +1310,7 @@ class Fn:
                (lambda t, ty, e2: "(ret (CReturn (St := %s) %s))" % (sty, t)) if has_ret else None)
         env_in = dict(env)
         for n in names:
-            env_in[n] = Var(env[n].ty, vname(n), NOCONST, env[n].version)
+            env_in[n] = recarry(n, env[n], 0)
         pre, t, c, env_t, _ef = self.cond(s.test, env_in)
         if pre:
             self.bad(s, "a loop test that draws")
@@ -1247,7 +1321,7 @@ class Fn:
             self.bad(s, "while False")
         env2 = dict(env)
         for n in names:
-            env2[n] = Var(env[n].ty, vname(n), NOCONST, env[n].version + 1)
+            env2[n] = recarry(n, env[n], 1)
         self.drop_all_facts(env2, names)
         fueltxt = fuel.format(**{n: env[n].coq for n in env if isinstance(env[n], Var)})
         cp = tuple_pat([vname(n) for n in names])
@@ -1356,10 +1430,10 @@ class Fn:
             return tuple_val([e2[n].coq for n in names])
         env_in = dict(env_in0)
         for n in names:
-            env_in[n] = Var(env[n].ty, vname(n), NOCONST, env[n].version)
+            env_in[n] = recarry(n, env[n], 0)
         env2 = dict(env)
         for n in names:
-            env2[n] = Var(env[n].ty, vname(n), NOCONST, env[n].version + 1)
+            env2[n] = recarry(n, env[n], 1)
         self.drop_all_facts(env2, names)
         cpat = tuple_pat([vname(n) for n in names])
         if not monadic and not ctl:
@@ -1422,6 +1496,8 @@ class Fn:
                 env[n] = Var("const", "tt", spec["consts"][n])
             elif n == self.rng_name:
                 env[n] = Var("rng", "tt")
+            elif n in spec.get("opaque", {}):
+                env[n] = Var(spec["opaque"][n], "tt")      # not part of the modelled state
             else:
                 self.bad(self.fn, "parameter %s is not described in PLAN" % n)
         order = spec.get("order", params)
@@ -1460,6 +1536,10 @@ class FnB(Fn):
     def is_bnode(self, e, env):
         if isinstance(e, ast.Name) and e.id in env and env[e.id].ty == "bnode":
             return True
+        # X.parent_node where the translator has established that it is not None
+        if (isinstance(e, ast.Attribute) and e.attr == "parent_node" and self.is_bnode(e.value, env)
+                and ("nonnone", self.path(e)) in self.facts(env)):
+            return True
         return (isinstance(e, ast.Attribute) and e.attr == "seed_node" and isinstance(e.value, ast.Name)
                 and e.value.id in env and env[e.value.id].ty == "treeh")
 
@@ -1468,11 +1548,24 @@ class FnB(Fn):
             return env[e.id].coq
         if "st_tr" not in env:
             self.bad(e, "tree used before it is created")
+        if e.attr == "parent_node":
+            return "(py_unwrap_n (b_parent %s %s))" % (env["st_tr"].coq, self.bnode(e.value, env))
         return "(b_id %s)" % env["st_tr"].coq
+
+    def is_kids(self, e, env):
+        return isinstance(e, ast.Attribute) and e.attr == "_child_nodes" and self.is_bnode(e.value, env)
+
+    def call(self, e, env):
+        # len(X._child_nodes)
+        if self.path(e.func) == "len" and len(e.args) == 1 and not e.keywords and self.is_kids(e.args[0], env):
+            return [], "(b_nkids %s %s)" % (env["st_tr"].coq, self.bnode(e.args[0].value, env)), "N", NOCONST
+        return Fn.call(self, e, env)
 
     def attribute_b(self, e, env, p):
         if e.attr == "seed_node" and self.is_bnode(e, env):
             return [], self.bnode(e, env), "bnode", NOCONST
+        if e.attr == "parent_node" and self.is_bnode(e.value, env):
+            return [], "(b_parent %s %s)" % (env["st_tr"].coq, self.bnode(e.value, env)), "ObN", NOCONST
         if e.attr in ("birth_rate", "death_rate") and self.is_bnode(e.value, env):
             store = "st_brates" if e.attr == "birth_rate" else "st_drates"
             return [], "(b_rate %s %s)" % (env[store].coq, self.bnode(e.value, env)), "Q", NOCONST
@@ -1499,6 +1592,11 @@ class FnB(Fn):
             if isinstance(op, ast.NotIn):
                 txt = "(negb %s)" % txt
             return [], txt, "B", NOCONST
+        if isinstance(r, ast.Name) and r.id in env and env[r.id].ty == TList("bnode") and self.is_bnode(l, env):
+            txt = "(memb %s %s)" % (self.bnode(l, env), env[r.id].coq)
+            if isinstance(op, ast.NotIn):
+                txt = "(negb %s)" % txt
+            return [], txt, "B", NOCONST
         if isinstance(r, ast.Name) and r.id in env and env[r.id].ty == "kwargs" \
                 and isinstance(l, ast.Constant) and isinstance(l.value, str):
             v = l.value in env[r.id].keys
@@ -1511,12 +1609,16 @@ class FnB(Fn):
         if isinstance(e, ast.Name) and e.id in env and env[e.id].ty == "kwargs":
             v = bool(env[e.id].keys)
             return [], ("true" if v else "false"), v
+        if self.is_kids(e, env):
+            return [], "(negb (b_nkids %s %s =? 0))" % (env["st_tr"].coq, self.bnode(e.value, env)), NOCONST
         return Fn.truth(self, e, env)
 
     def call_b(self, e, qual, env):
         if isinstance(e.func, ast.Attribute) and e.func.attr == "leaf_nodes" and not e.args and not e.keywords \
                 and isinstance(e.func.value, ast.Name) and e.func.value.id in env and env[e.func.value.id].ty == "treeh":
             return [], "(leaf_ids %s)" % env["st_tr"].coq, TList("bnode"), NOCONST
+        if qual == "set" and not e.args and not e.keywords:
+            return [], "[]", TList(None), NOCONST
         # set([t.label for t in pool]): the labels of the pooled taxa
         if qual == "set" and len(e.args) == 1 and isinstance(e.args[0], ast.ListComp):
             lc = e.args[0]
@@ -1543,7 +1645,7 @@ class FnB(Fn):
     def call_known(self, e, name, env):
         pre, v, ty, c = Fn.call_known(self, e, name, env)
         if ty == "A":        # weighted_choice: the element type of its first argument
-            args = self.bind_call(e, KNOWN[name]["fn"])
+            args = self.bind_call(e, KNOWN[name][0]["fn"])
             _p, _t, sty, _c = self.ex(args["seq"], env)
             ty = sty[1]
         return pre, v, ty, c
@@ -1571,7 +1673,7 @@ class FnB(Fn):
         if isinstance(e, ast.Call) and isinstance(e.func, ast.Attribute):
             if e.func.attr == "new_child":
                 return ["st_tr", "st_next"]
-            if e.func.attr in ("clear_child_nodes", "suppress_unifurcations"):
+            if e.func.attr in ("clear_child_nodes", "suppress_unifurcations", "prune_subtree"):
                 return ["st_tr"]
             if isinstance(e.func.value, ast.Name) and e.func.value.id in env:
                 r, ty = e.func.value.id, env[e.func.value.id].ty
@@ -1648,6 +1750,13 @@ class FnB(Fn):
             env2 = self.bind(env2, t.id, "tax")
             return "(let '(%s, %s) := py_new_taxon %s %s in\n  %s)" % (env2[r].coq, env2[t.id].coq, old, lt,
                                                                       self.block(rest, env2, k, mode))
+        # nd = X.parent_node   (where X.parent_node is known not to be None)
+        if isinstance(t, ast.Name) and isinstance(v, ast.Attribute) and v.attr == "parent_node":
+            if not self.is_bnode(v, env):
+                self.bad(s, "a parent that may be None is used as a node")
+            txt = self.bnode(v, env)
+            env2 = self.bind(env, t.id, "bnode")
+            return self.let(env2[t.id].coq, txt, self.block(rest, env2, k, mode))
         # c = nd.new_child()
         if (isinstance(t, ast.Name) and isinstance(v, ast.Call) and isinstance(v.func, ast.Attribute)
                 and v.func.attr == "new_child" and not v.args and not v.keywords and self.is_bnode(v.func.value, env)):
@@ -1710,6 +1819,21 @@ class FnB(Fn):
                 if env[r].ty == "treeh" and meth == "suppress_unifurcations" and not e.args and not e.keywords:
                     env2 = self.bind(env, "st_tr", "btree")
                     return self.let("v_st_tr", "(suppress %s)" % env["st_tr"].coq, self.block(rest, env2, k, mode))
+                # tree.prune_subtree(nd, suppress_unifurcations=False)
+                if env[r].ty == "treeh" and meth == "prune_subtree" and len(e.args) == 1 and self.is_bnode(e.args[0], env) \
+                        and [kw_.arg for kw_ in e.keywords] == ["suppress_unifurcations"] \
+                        and isinstance(e.keywords[0].value, ast.Constant) and e.keywords[0].value.value is False:
+                    if mode != "M":
+                        self.bad(s, "prune_subtree (can raise) inside a pure block")
+                    env2 = self.bind(env, "st_tr", "btree")
+                    return "(let! v_st_tr := b_prune_subtree %s %s in\n  %s)" % (
+                        env["st_tr"].coq, self.bnode(e.args[0], env), self.block(rest, env2, k, mode))
+                # node_set.add(nd)
+                if env[r].ty == TList("bnode") and meth == "add" and len(e.args) == 1 and self.is_bnode(e.args[0], env):
+                    old = env[r].coq
+                    txt = self.bnode(e.args[0], env)
+                    env2 = self.bind(env, r, env[r].ty)
+                    return self.let(env2[r].coq, "(%s :: %s)" % (txt, old), self.block(rest, env2, k, mode))
                 # rng.shuffle(l)
                 if env[r].ty == "rng" and meth == "shuffle" and len(e.args) == 1 and isinstance(e.args[0], ast.Name) \
                         and e.args[0].id in env and is_list(env[e.args[0].id].ty):
@@ -1756,7 +1880,33 @@ class FnB(Fn):
                 and self.path(s.handlers[0].body[0].targets[0]) == self.path(s.body[0].target)
                 and ast.dump(s.handlers[0].body[0].value) == ast.dump(s.body[0].value)):
             return self.block(s.body + rest, env, k, mode)
+        # try: L.remove(nd) / except ValueError: pass : remove the first occurrence if there is one
+        if (len(s.handlers) == 1 and self.path(s.handlers[0].type) == "ValueError" and not s.orelse and not s.finalbody
+                and len(s.body) == 1 and isinstance(s.body[0], ast.Expr) and isinstance(s.body[0].value, ast.Call)
+                and isinstance(s.body[0].value.func, ast.Attribute) and s.body[0].value.func.attr == "remove"
+                and isinstance(s.body[0].value.func.value, ast.Name) and len(s.body[0].value.args) == 1
+                and not s.body[0].value.keywords
+                and len(s.handlers[0].body) == 1 and isinstance(s.handlers[0].body[0], ast.Pass)):
+            r = s.body[0].value.func.value.id
+            a = s.body[0].value.args[0]
+            if r in env and env[r].ty == TList("bnode") and self.is_bnode(a, env):
+                old = env[r].coq
+                txt = self.bnode(a, env)
+                env2 = self.bind(env, r, env[r].ty)
+                return self.let(env2[r].coq, "(remove_first %s %s)" % (txt, old), self.block(rest, env2, k, mode))
         self.bad(s, "try statement form")
+
+    def block_assert(self, s, rest, env, k, mode):
+        if mode != "M" or s.msg is not None:
+            self.bad(s, "assert form")
+        pre, t, c, env_t, _ef = self.cond(s.test, env)
+        if pre:
+            self.bad(s, "assert that draws")
+        if c is not NOCONST:
+            if c:
+                return self.block(rest, env, k, mode)
+            return "(raise PyPrims.AssertErr)"
+        return "(if %s\n   then %s\n   else (raise PyPrims.AssertErr))" % (t, self.block(rest, env_t, k, mode))
 
     def for_range_b(self, s, rest, env, k, mode):
         # for i in range(len(L)): L[i] = <expression in L[i]>   ->  L = map (fun x => ...) L
@@ -1841,9 +1991,21 @@ class FnB(Fn):
                     self.bad(self.fn, "live variable %s of part %s is not defined" % (n, part["coq"]))
             self.fuels = list(part.get("fuel", []))
             self.part = part
-            k2 = K(lambda e: self.bad(self.fn, "part %s falls off the end" % part["coq"]), None, None,
-                   lambda t, ty, e: "(ret %s)" % t)
-            body2 = self.block(stmts[idx[0]:], env2, k2, "M")
+            def part_fall(e, part=part):
+                if "result" not in part:
+                    self.bad(self.fn, "part %s falls off the end" % part["coq"])
+                for n in part["result"]:
+                    if n not in e or e[n].const is not NOCONST:
+                        self.bad(self.fn, "result variable %s of part %s is not live" % (n, part["coq"]))
+                return "(ret %s)" % tuple_val([e[n].coq for n in part["result"]])
+            k2 = K(part_fall, None, None, lambda t, ty, e: "(ret %s)" % t)
+            end = len(stmts)
+            if "stop" in part:
+                jdx = [i for i, st_ in enumerate(stmts) if i > idx[0] and part["stop"](st_)]
+                if len(jdx) != 1:
+                    self.bad(self.fn, "end of part %s not found" % part["coq"])
+                end = jdx[0]
+            body2 = self.block(stmts[idx[0]:end], env2, k2, "M")
             out += "\n" + "".join(self.aux) + "Definition %s %s :=\n  %s.\n" % (
                 part["coq"], " ".join("(%s : %s)" % (vname(n), coq_ty(env2[n].ty)) for n in part["live"]), body2)
         if self.fuels:
@@ -1870,6 +2032,240 @@ class FnB(Fn):
         if self.spec.get("stop_after_while") and k is self.top_k:
             rest = []         # the statements after the event loop are translated separately
         return Fn.st_While(self, s, rest, env, k, mode)
+
+
+# ----------------------------------------------------------------------------------------------
+# contained_coalescent_tree: the containing tree is a value `stree` (Model/C18Model.v) whose nodes
+# carry: sid (identity), genes (Some l iff `nd.taxon and nd.taxon in reverse-map`, l = the gene taxa
+# sorted by accession index), len (edge.length), pop (the population size of the edge: the attribute
+# named by edge_pop_size_attr if present, else default_pop_size).  A dict keyed by nodes is an
+# association list keyed by sid.  An edge is (head node, sid of the tail node or None).
+# ----------------------------------------------------------------------------------------------
+POP_SIZE_IF = ast.parse("""
+if edge_pop_size_attr and hasattr(edge, edge_pop_size_attr):
+    pop_size = getattr(edge, edge_pop_size_attr)
+else:
+    pop_size = default_pop_size
+""").body[0]
+
+
+def is_dict(t):
+    return isinstance(t, tuple) and t[0] == "dict"
+
+
+class FnS(Fn):
+    IGNORED_TREE_ATTRS = ("is_rooted", "pop_node_genes")
+
+    def var_ty(self, e, env):
+        return env[e.id].ty if isinstance(e, ast.Name) and e.id in env else None
+
+    # -- keys ------------------------------------------------------------------------------------
+    def dict_key(self, e, env):
+        """the sid of a containing-tree node expression"""
+        if self.var_ty(e, env) == "snode":
+            return "(s_id %s)" % env[e.id].coq
+        if isinstance(e, ast.Attribute) and self.var_ty(e.value, env) == "sedge":
+            ed = env[e.value.id].coq
+            if e.attr == "head_node":
+                return "(s_id (fst %s))" % ed
+            # edge.tail_node is edge.head_node.parent_node (Edge._get_tail_node)
+            if e.attr == "tail_node" and ("nonnone", e.value.id + ".head_node.parent_node") in self.facts(env):
+                return "(py_unwrap_n (snd %s))" % ed
+        self.bad(e, "dictionary key")
+
+    # -- expressions -----------------------------------------------------------------------------
+    def ex(self, e, env):
+        if isinstance(e, ast.Dict) and not e.keys:
+            return [], "[]", ("dict", None, None), NOCONST
+        return Fn.ex(self, e, env)
+
+    def attribute_b(self, e, env, p):
+        if self.var_ty(e.value, env) == "taxmap" and e.attr == "domain_taxon_namespace":
+            return [], "tt", "opaque", NOCONST
+        if self.var_ty(e.value, env) == "taxmap" and e.attr == "reverse":
+            return [], "tt", "revmap", NOCONST
+        if isinstance(e.value, ast.Attribute) and e.value.attr == "head_node" and e.attr == "parent_node" \
+                and self.var_ty(e.value.value, env) == "sedge":
+            return [], "(snd %s)" % env[e.value.value.id].coq, "OsN", NOCONST
+        if e.attr == "length" and self.var_ty(e.value, env) == "sedge":
+            return [], "(s_len (fst %s))" % env[e.value.id].coq, "OQ", NOCONST
+        self.bad(e, "attribute .%s" % e.attr)
+
+    def subscript(self, e, env):
+        if self.var_ty(e.value, env) is not None and is_dict(env[e.value.id].ty):
+            v = self.fresh("x")
+            return [(v, "(py_dict_get %s %s)" % (env[e.value.id].coq, self.dict_key(e.slice, env)))], v, \
+                env[e.value.id].ty[2], NOCONST
+        return Fn.subscript(self, e, env)
+
+    def contains(self, e, op, l, r, env):
+        if self.var_ty(r, env) is not None and is_dict(env[r.id].ty):
+            txt = "(d_has %s %s)" % (env[r.id].coq, self.dict_key(l, env))
+            if isinstance(op, ast.NotIn):
+                txt = "(negb %s)" % txt
+            return [], txt, "B", NOCONST
+        self.bad(e, "`in`")
+
+    def cond(self, e, env):
+        # nd.taxon and nd.taxon in <reverse map>: the node holds gene taxa
+        if (isinstance(e, ast.BoolOp) and isinstance(e.op, ast.And) and len(e.values) == 2
+                and isinstance(e.values[0], ast.Attribute) and e.values[0].attr == "taxon"
+                and self.var_ty(e.values[0].value, env) == "snode"
+                and isinstance(e.values[1], ast.Compare) and len(e.values[1].ops) == 1
+                and isinstance(e.values[1].ops[0], ast.In)
+                and ast.dump(e.values[1].left) == ast.dump(e.values[0])
+                and self.var_ty(e.values[1].comparators[0], env) == "revmap"):
+            return [], "(s_has_genes %s)" % env[e.values[0].value.id].coq, NOCONST, env, env
+        return Fn.cond(self, e, env)
+
+    def call(self, e, env):
+        if self.path(e.func) == "dendropy.Tree" and not e.args and [k_.arg for k_ in e.keywords] == ["taxon_namespace"]:
+            return [], "(g_new None)", "gnode", NOCONST       # a new tree is its (fresh) seed node
+        return Fn.call(self, e, env)
+
+    def call_b(self, e, qual, env):
+        f = e.func
+        if isinstance(f, ast.Attribute) and self.var_ty(f.value, env) == "stree" and not e.args and not e.keywords:
+            if f.attr == "postorder_node_iter":
+                return [], "(s_post %s)" % env[f.value.id].coq, TList("snode"), NOCONST
+            if f.attr == "postorder_edge_iter":
+                return [], "(s_post_edges None %s)" % env[f.value.id].coq, TList("sedge"), NOCONST
+        # sorted(<reverse map>[nd.taxon], key=<gene namespace>.accession_index): the gene taxa of the node
+        if (qual == "sorted" and len(e.args) == 1 and isinstance(e.args[0], ast.Subscript)
+                and self.var_ty(e.args[0].value, env) == "revmap"
+                and isinstance(e.args[0].slice, ast.Attribute) and e.args[0].slice.attr == "taxon"
+                and self.var_ty(e.args[0].slice.value, env) == "snode"
+                and [k_.arg for k_ in e.keywords] == ["key"] and isinstance(e.keywords[0].value, ast.Attribute)
+                and e.keywords[0].value.attr == "accession_index"
+                and self.var_ty(e.keywords[0].value.value, env) == "opaque"):
+            return [], "(s_own %s)" % env[e.args[0].slice.value.id].coq, TList("tax"), NOCONST
+        self.bad(e, "call %s" % (qual or ast.dump(e.func)))
+
+    # -- statement analysis ----------------------------------------------------------------------
+    def attr_store_vars_b(self, t, r, env):
+        self.bad(t, "store to attribute of %s" % r)
+
+    def expr_store_vars_b(self, e, env):
+        if (isinstance(e, ast.Call) and isinstance(e.func, ast.Attribute) and e.func.attr in ("append", "extend")
+                and isinstance(e.func.value, ast.Subscript) and isinstance(e.func.value.value, ast.Name)):
+            return [e.func.value.value.id]
+        return []
+
+    def only_touches(self, stmts, names, loopvars=()):
+        """the statements can only rebind / mutate the objects called `names`"""
+        for s in stmts:
+            if isinstance(s, ast.Assign):
+                if not all(isinstance(t, ast.Name) and t.id in names for t in s.targets):
+                    return False
+                if not (isinstance(s.value, ast.Call) and self.path(s.value.func) == "dendropy.TaxonNamespace"
+                        and not s.value.args and not s.value.keywords):
+                    return False
+            elif isinstance(s, ast.Expr):
+                c = s.value
+                if not (isinstance(c, ast.Call) and isinstance(c.func, ast.Attribute) and c.func.attr == "add"
+                        and isinstance(c.func.value, ast.Name) and c.func.value.id in names
+                        and all(isinstance(a, ast.Name) and a.id in loopvars for a in c.args) and not c.keywords):
+                    return False
+            elif isinstance(s, ast.For):
+                if not (isinstance(s.target, ast.Name) and isinstance(s.iter, ast.Name) and not s.orelse):
+                    return False
+                if not self.only_touches(s.body, names, tuple(loopvars) + (s.target.id,)):
+                    return False
+            else:
+                return False
+        return True
+
+    # -- statements ------------------------------------------------------------------------------
+    def st_Assign(self, s, rest, env, k, mode):
+        t = s.targets[0] if len(s.targets) == 1 else None
+        if isinstance(t, ast.Name) and isinstance(s.value, ast.Dict) and not s.value.keys:
+            hint = self.spec.get("locals", {}).get(t.id)
+            if hint is None or not is_dict(hint):
+                self.bad(s, "type of the empty dict %s is not declared in PLAN" % t.id)
+            env2 = self.bind(env, t.id, hint)
+            return self.let(env2[t.id].coq, "(@nil (nat * %s))" % coq_ty(hint[2]), self.block(rest, env2, k, mode))
+        if isinstance(t, ast.Name) and isinstance(s.value, ast.Attribute) and self.var_ty(s.value.value, env) == "taxmap":
+            _p, _t, ty, _c = self.ex(s.value, env)
+            env2 = dict(env)
+            env2[t.id] = Var(ty, "tt")
+            return self.block(rest, env2, k, mode)
+        if isinstance(t, ast.Name) and isinstance(s.value, ast.Call) and self.path(s.value.func) == "dendropy.Tree":
+            pre, txt, ty, _c = self.ex(s.value, env)
+            env2 = self.bind(env, t.id, "gnode", tree=True)
+            return self.let(env2[t.id].coq, txt, self.block(rest, env2, k, mode))
+        return Fn.st_Assign(self, s, rest, env, k, mode)
+
+    def subscript_store(self, s, t, rest, env, k, mode):
+        if self.var_ty(t.value, env) is not None and is_dict(env[t.value.id].ty):
+            d = t.value.id
+            pre, txt, ty, _ = self.ex(s.value, env)
+            if pre:
+                self.bad(s, "stored value draws")
+            txt = self.coerce(txt, ty, env[d].ty[2], s)
+            key = self.dict_key(t.slice, env)
+            old = env[d].coq
+            env2 = self.bind(env, d, env[d].ty)
+            return self.let(env2[d].coq, "(d_set %s %s %s)" % (old, key, txt), self.block(rest, env2, k, mode))
+        self.bad(s, "subscript store")
+
+    def st_Expr_b(self, s, rest, env, k, mode):
+        e = s.value
+        # D[key].append(x) / D[key].extend(l): the list held by the dict is updated in place
+        if (isinstance(e, ast.Call) and isinstance(e.func, ast.Attribute) and e.func.attr in ("append", "extend")
+                and isinstance(e.func.value, ast.Subscript) and self.var_ty(e.func.value.value, env) is not None
+                and is_dict(env[e.func.value.value.id].ty) and len(e.args) == 1 and not e.keywords):
+            if mode != "M":
+                self.bad(s, "dictionary lookup (can raise) inside a pure block")
+            d = e.func.value.value.id
+            vty = env[d].ty[2]
+            key = self.dict_key(e.func.value.slice, env)
+            pre, txt, ty, _ = self.ex(e.args[0], env)
+            if pre:
+                self.bad(s, "argument draws")
+            if e.func.attr == "append":
+                if ty != vty[1]:
+                    self.bad(s, "append of %r" % (ty,))
+                new = "[%s]" % txt
+            else:
+                if ty != vty:
+                    self.bad(s, "extend by %r" % (ty,))
+                new = txt
+            l_ = self.fresh("l")
+            old = env[d].coq
+            env2 = self.bind(env, d, env[d].ty)
+            return "(let! %s := py_dict_get %s %s in\n  %s)" % (
+                l_, old, key, self.let(env2[d].coq, "(d_set %s %s (%s ++ %s))" % (old, key, l_, new),
+                                       self.block(rest, env2, k, mode)))
+        self.bad(s, "expression statement")
+
+    def attr_store_b(self, s, t, value, op, rest, env, k, mode):
+        root = self.path(t).split(".")[0]
+        if root in env and getattr(env[root], "tree", False) and op is None and self.path(t) == root + "." + t.attr:
+            if t.attr in self.IGNORED_TREE_ATTRS:
+                return self.block(rest, env, k, mode)
+            if t.attr == "seed_node":
+                pre, txt, ty, _ = self.ex(value, env)
+                if ty != "gnode":
+                    self.bad(s, "seed node of type %r" % (ty,))
+                env2 = self.bind(env, root, "gnode", tree=True)
+                return self.emit_pre(pre, self.let(env2[root].coq, txt, self.block(rest, env2, k, mode)), mode, s)
+        self.bad(s, "attribute store .%s" % t.attr)
+
+    def st_If(self, s, rest, env, k, mode):
+        # the population size of the edge
+        if ast.dump(s) == ast.dump(POP_SIZE_IF) and self.var_ty(ast.Name(id="edge"), env) == "sedge" \
+                and self.var_ty(ast.Name(id="edge_pop_size_attr"), env) == "opaque" \
+                and self.var_ty(ast.Name(id="default_pop_size"), env) == "opaque":
+            env2 = self.bind(env, "pop_size", "Q")
+            return self.let(env2["pop_size"].coq, "(s_pop (fst %s))" % env["edge"].coq, self.block(rest, env2, k, mode))
+        # if <gene namespace> is None: <build it>   (set-up of the namespace, outside the modelled state)
+        if (isinstance(s.test, ast.Compare) and len(s.test.ops) == 1 and isinstance(s.test.ops[0], ast.Is)
+                and isinstance(s.test.comparators[0], ast.Constant) and s.test.comparators[0].value is None
+                and self.var_ty(s.test.left, env) == "opaque" and not s.orelse):
+            if not self.only_touches(s.body, (s.test.left.id,)):
+                self.bad(s, "namespace set-up touches something else")
+            return self.block(rest, env, k, mode)
+        return Fn.st_If(self, s, rest, env, k, mode)
 
 
 # ----------------------------------------------------------------------------------------------
@@ -2003,25 +2399,70 @@ PLAN = [
          consts={"use_expected_tmrca": False}, fuel=["py_while (S (length {nodes}))"], ret=TList("gnode")),
     dict(file="model/coalescent.py", name="pure_kingman_tree", coq="gen_pure_kingman_tree",
          params={"taxon_namespace": TList("tax"), "pop_size": "Q"}, ret="gnode"),
+    # mean_kingman_tree: coalesce_nodes with use_expected_tmrca=True (waiting times = their expectations)
+    dict(file="model/coalescent.py", name="expected_tmrca", coq="gen_expected_tmrca",
+         params={"n_genes": "N", "pop_size": "Q"}, consts={"n_to_coalesce": 2}, ret="Q"),
+    dict(file="model/coalescent.py", name="coalesce_nodes", coq="gen_coalesce_nodes_mean",
+         params={"nodes": TList("gnode"), "pop_size": "Q", "period": "OQ"}, order=["pop_size", "period", "nodes"],
+         consts={"use_expected_tmrca": True}, fuel=["py_while (S (length {nodes}))"], ret=TList("gnode")),
+    dict(file="model/coalescent.py", name="mean_kingman_tree", coq="gen_mean_kingman_tree",
+         params={"taxon_namespace": TList("tax"), "pop_size": "Q"}, ret="gnode", register=False),
+    dict(file="model/coalescent.py", name="contained_coalescent_tree", coq="gen_contained_coalescent_tree", cls="FnS",
+         params={"containing_tree": "stree"},
+         opaque={"gene_to_containing_taxon_map": "taxmap", "edge_pop_size_attr": "opaque", "default_pop_size": "opaque"},
+         locals={"pop_node_genes": ("dict", "snode", TList("gnode"))}, ret="gnode", register=False),
     dict(file="model/birthdeath.py", name="uniform_pure_birth_tree", coq="gen_uniform_pure_birth_tree", cls="FnB",
          params={"taxon_namespace": TList("tax"), "birth_rate": "Q"}, fuel=["py_while (S (length {taxon_namespace}))"],
          ret="btree", register=False),
-    # the part of birth_death_tree up to the end of the event loop (tip-count rule, no GSA); the
-    # pruning of the extinct tips and the taxon assignment are not translated
+    # birth_death_tree in three parts (tip-count rule, no GSA): up to the end of the event loop; the
+    # taxon assignment; the pruning of the extinct tips
     dict(file="model/birthdeath.py", name="birth_death_tree", coq="gen_birth_death_tree_loop", cls="FnB",
          params={"birth_rate": "Q", "death_rate": "Q", "birth_rate_sd": "Q", "death_rate_sd": "Q"},
          kwargs={"num_extant_tips": "N", "taxon_namespace": "labs", "rng": "rng"},
          locals={"extinct_tips": TList("bnode"), "event_rates": TList("Q"),
-                 "event_nodes": TList(TPair("bnode", "B")), "targetted_time_slices": TList("unit"), "total_time": "Q"},
+                 "event_nodes": TList(TPair("bnode", "B")), "targetted_time_slices": TList("unit"), "total_time": "Q",
+                 "processed_nodes": TList("bnode")},
          annotation="is_extinct", stop_after_while=True, fuel=["py_while_script"], ret="unit", register=False,
          result=["st_tr", "extant_tips", "extinct_tips", "st_brates", "st_drates", "st_next", "total_time"],
-         # from tree.suppress_unifurcations() to the end: the taxon assignment (the pruning of the extinct tips
-         # in between is not translated)
+         # from tree.suppress_unifurcations() to the end: the taxon assignment
          parts=[dict(coq="gen_birth_death_tree_taxa", live=["st_tr", "taxon_namespace"],
                      start=lambda st_: (isinstance(st_, ast.Expr) and isinstance(st_.value, ast.Call)
                                         and isinstance(st_.value.func, ast.Attribute)
                                         and st_.value.func.attr == "suppress_unifurcations"),
-                     fuel=["py_while (S (length {taxon_pool_labels}))"], return_with=["taxon_namespace"])]),
+                     fuel=["py_while (S (length {taxon_pool_labels}))"], return_with=["taxon_namespace"]),
+                # the pruning of the extinct tips (between the event loop and suppress_unifurcations)
+                dict(coq="gen_birth_death_tree_prune", live=["st_tr", "extinct_tips"],
+                     start=lambda st_: (isinstance(st_, ast.If) and isinstance(st_.test, ast.UnaryOp)
+                                        and isinstance(st_.test.operand, ast.Name)
+                                        and st_.test.operand.id == "is_retain_extinct_tips"),
+                     stop=lambda st_: (isinstance(st_, ast.Expr) and isinstance(st_.value, ast.Call)
+                                       and isinstance(st_.value.func, ast.Attribute)
+                                       and st_.value.func.attr == "suppress_unifurcations"),
+                     fuel=["py_while (S (length (ids {st_tr})))"], result=["st_tr"])]),
+    # fast_birth_death_tree: the same three parts
+    dict(file="model/birthdeath.py", name="fast_birth_death_tree", coq="gen_fast_birth_death_tree_loop", cls="FnB",
+         params={"birth_rate": "Q", "death_rate": "Q"},
+         kwargs={"num_extant_tips": "N", "taxon_namespace": "labs", "rng": "rng"},
+         locals={"extinct_tips": TList("bnode"), "event_rates": TList("Q"),
+                 "event_nodes": TList(TPair("bnode", "B")), "targetted_time_slices": TList("unit"), "total_time": "Q",
+                 "processed_nodes": TList("bnode"), "initial_lengths": TList("Q")},
+         annotation="is_extinct", stop_after_while=True, fuel=["py_while_script"], ret="unit", register=False,
+         result=["st_tr", "extant_tips", "extinct_tips", "st_brates", "st_drates", "st_next", "total_time"],
+         # from tree.suppress_unifurcations() to the end: the taxon assignment
+         parts=[dict(coq="gen_fast_birth_death_tree_taxa", live=["st_tr", "taxon_namespace"],
+                     start=lambda st_: (isinstance(st_, ast.Expr) and isinstance(st_.value, ast.Call)
+                                        and isinstance(st_.value.func, ast.Attribute)
+                                        and st_.value.func.attr == "suppress_unifurcations"),
+                     fuel=["py_while (S (length {taxon_pool_labels}))"], return_with=["taxon_namespace"]),
+                # the pruning of the extinct tips (between the event loop and suppress_unifurcations)
+                dict(coq="gen_fast_birth_death_tree_prune", live=["st_tr", "extinct_tips"],
+                     start=lambda st_: (isinstance(st_, ast.If) and isinstance(st_.test, ast.UnaryOp)
+                                        and isinstance(st_.test.operand, ast.Name)
+                                        and st_.test.operand.id == "is_retain_extinct_tips"),
+                     stop=lambda st_: (isinstance(st_, ast.Expr) and isinstance(st_.value, ast.Call)
+                                       and isinstance(st_.value.func, ast.Attribute)
+                                       and st_.value.func.attr == "suppress_unifurcations"),
+                     fuel=["py_while (S (length (ids {st_tr})))"], result=["st_tr"])]),
 ]
 
 
@@ -2032,10 +2473,11 @@ def compile_fn(Cls, trees, spec):
     c = Cls(fn, spec, trees)
     txt = c.translate()
     if spec.get("register", True):
-        KNOWN[spec["name"]] = dict(coq=spec["coq"], fn=fn, ret=spec["ret"], consts=spec.get("consts", {}),
-                                   params=[(p, spec["params"][p]) for p in spec.get("order", [a.arg for a in fn.args.args
-                                                                                                if a.arg in spec["params"]])],
-                                   rng="rng")
+        KNOWN.setdefault(spec["name"], []).append(
+            dict(coq=spec["coq"], fn=fn, ret=spec["ret"], consts=spec.get("consts", {}),
+                 params=[(p, spec["params"][p]) for p in spec.get("order", [a.arg for a in fn.args.args
+                                                                              if a.arg in spec["params"]])],
+                 rng="rng" if any(a.arg == "rng" for a in fn.args.args) else None))
     return "(* %s: %s, line %d *)\n%s" % (spec["file"], spec["name"], fn.lineno, txt)
 
 
